@@ -125,6 +125,8 @@ PACKED_TYPES = [
 WIRE_VARINT = 0
 WIRE_FIXED_64 = 1
 WIRE_LEN_DELIM = 2
+WIRE_START_GROUP = 3
+WIRE_END_GROUP = 4
 WIRE_FIXED_32 = 5
 
 # Mappings of which Proto 3 types correspond to which wire types.
@@ -577,7 +579,12 @@ def load_varint(stream: "SupportsRead[bytes]") -> Tuple[int, bytes]:
             raise ValueError("Too many bytes when decoding varint.")
         b = stream.read(1)
         if not b:
-            raise EOFError("Stream ended unexpectedly while attempting to load varint.")
+            error = EOFError(
+                "Stream ended unexpectedly while attempting to load varint."
+            )
+            # bytes consumed before the stream ended (empty at a clean end of input)
+            error.partial = raw  # type: ignore
+            raise error
         raw += b
         b_int = int.from_bytes(b, byteorder="little")
         result |= (b_int & 0x7F) << shift
@@ -604,30 +611,55 @@ class ParsedField:
     raw: bytes
 
 
+def _read_exactly(stream: "SupportsRead[bytes]", size: int) -> bytes:
+    data = stream.read(size)
+    if len(data) != size:
+        raise EOFError(
+            f"Stream ended unexpectedly: expected {size} bytes, got {len(data)}."
+        )
+    return data
+
+
 def load_fields(stream: "SupportsRead[bytes]") -> Generator[ParsedField, None, None]:
     while True:
         try:
             num_wire, raw = load_varint(stream)
-        except EOFError:
+        except EOFError as error:
+            if getattr(error, "partial", b""):
+                # the stream ended in the middle of a tag, not at a field boundary
+                raise
             return
         number = num_wire >> 3
         wire_type = num_wire & 0x7
+        if number == 0:
+            raise ValueError("Invalid field number 0.")
 
         decoded: Any = None
         if wire_type == WIRE_VARINT:
             decoded, r = load_varint(stream)
             raw += r
         elif wire_type == WIRE_FIXED_64:
-            decoded = stream.read(8)
+            decoded = _read_exactly(stream, 8)
             raw += decoded
         elif wire_type == WIRE_LEN_DELIM:
             length, r = load_varint(stream)
-            decoded = stream.read(length)
+            decoded = _read_exactly(stream, length)
             raw += r
             raw += decoded
         elif wire_type == WIRE_FIXED_32:
-            decoded = stream.read(4)
+            decoded = _read_exactly(stream, 4)
             raw += decoded
+        elif wire_type == WIRE_START_GROUP:
+            # A (proto2) group: skip everything up to the matching end-group tag
+            # and keep the whole group verbatim.
+            for inner in load_fields(stream):
+                raw += inner.raw
+                if inner.wire_type == WIRE_END_GROUP and inner.number == number:
+                    break
+            else:
+                raise EOFError("Stream ended unexpectedly inside a group.")
+        elif wire_type != WIRE_END_GROUP:
+            raise ValueError(f"Invalid wire type {wire_type}.")
 
         yield ParsedField(number=number, wire_type=wire_type, value=decoded, raw=raw)
 
